@@ -2,6 +2,7 @@
   Property C13 — whitespace, commas, comments and discarded forms never change the value read.
 -/
 import Edn.Proofs.Trivia
+import Edn.Proofs.RejectDocTrivX
 
 namespace Edn.Properties.C13
 open Edn.Model Edn.Proofs
@@ -41,5 +42,74 @@ theorem trivia_only_is_eof (cfg : Cfg) (opts : Opts) (s : Bytes) (h : skipWsScal
 /-- non-vacuity -/
 example : PlainTrivia [0x20, 0x2C, 0x3B, 0x61, 0x0A, 0x1C] :=
   .ws _ _ (by decide +kernel) (.ws _ _ (by decide +kernel) (.comment [0x61] [0x1C] (by simp) (.ws _ _ (by decide +kernel) .nil)))
+
+/-! ## end of input ⇔ only trivia at top level, every configuration -/
+
+open Edn.Proofs.RejectDoc (posOf) in
+open Edn.Proofs.RejectDocTrivX (TopTriviaX) in
+/-- **End of input iff top-level trivia, in every configuration** (no reader registry).
+    `TopTriviaX cfg input` (`Edn.Proofs.RejectDocTrivXAux1`) says declaratively that the input holds
+    no form: blanks (the 11 whitespace bytes, commas), line comments — the last one possibly not
+    closed by a line feed — and complete discarded forms `#_ form`, where `form` is a form of the
+    configuration's grammar `Edn.Spec.FormX cfg (numJOf cfg) (strJOf cfg)` (with the Clojure flag
+    this includes metadata forms `^ann target` and namespaced maps `#:ns{…}`; with the experimental
+    flag text blocks and the extended numbers) whose nesting leaves room for the discard marker.
+    Then
+    1. the top-level `readValue` ends with the error flagged "end of input between top-level forms"
+       (the model's `eofTop`) **iff** `TopTriviaX cfg input`;
+    2. with an end-of-input value supplied, `edn_read` returns it **iff** `TopTriviaX cfg input`;
+    3. `edn_read` never returns the end-of-input value otherwise (none supplied, or a form present);
+    4. without an end-of-input value a `TopTriviaX` input gives UNEXPECTED_EOF at the very end of the
+       input, and no handler call. -/
+theorem end_of_input_iff_top_level_trivia_in_every_configuration (cfg : Cfg) (opts : Opts)
+    (hreg : opts.registry = none) (input : Bytes) :
+    ((∃ e st, readValue { cfg := cfg, opts := opts } (readFuel input) 0 false { rest := input } = .err e st ∧
+        e.eofTop = true) ↔ TopTriviaX cfg input) ∧
+    (opts.eofValue = true → ((read cfg opts input).out = .eofValue ↔ TopTriviaX cfg input)) ∧
+    ((read cfg opts input).out = .eofValue → opts.eofValue = true ∧ TopTriviaX cfg input) ∧
+    (opts.eofValue = false → TopTriviaX cfg input →
+      (read cfg opts input).out = .error .unexpectedEof (posOf input input.length) (posOf input input.length) ∧
+      (read cfg opts input).calls = []) :=
+  ⟨RejectDocTrivX.eofTopX_iff cfg opts hreg input,
+   fun hev => RejectDocTrivX.eofX_iff_trivia_only cfg opts hreg hev input,
+   RejectDocTrivX.eofValueX_inv cfg opts hreg input,
+   fun hev h => RejectDocTrivX.triviaX_only_eof_error cfg opts hreg hev input h⟩
+
+/-- non-vacuity, Clojure flag: `#_ ^:a [1] ; c` — a discarded *metadata form* and an unclosed
+    comment — holds no form … -/
+example : RejectDocTrivX.TopTriviaX ⟨true, false⟩ "#_ ^:a [1] ; c".toUTF8.toList :=
+  RejectDocTrivX.topTriviaX_of_read _ _ (by decide +kernel)
+
+/-- … whereas in the core configuration (`^:a` is a symbol there) the same bytes hold the form `[1]` -/
+example : ¬ RejectDocTrivX.TopTriviaX Cfg.core "#_ ^:a [1] ; c".toUTF8.toList :=
+  RejectDocTrivX.not_topTriviaX_of_read _ _ (by decide +kernel)
+
+/-- a discarded *namespaced map* is trivia with the Clojure flag (with or without the experimental one) -/
+example : ∀ cfg ∈ [(⟨true, false⟩ : Cfg), ⟨true, true⟩], RejectDocTrivX.TopTriviaX cfg "#_ #:a{:x 1}".toUTF8.toList := by
+  intro cfg hc
+  apply RejectDocTrivX.topTriviaX_of_read
+  revert cfg
+  decide +kernel
+
+/-- blanks and commas only, every configuration -/
+example : ∀ cfg ∈ [Cfg.core, ⟨true, false⟩, ⟨false, true⟩, ⟨true, true⟩],
+    RejectDocTrivX.TopTriviaX cfg "  ,, ".toUTF8.toList := by
+  intro cfg hc
+  apply RejectDocTrivX.topTriviaX_of_read
+  revert cfg
+  decide +kernel
+
+/-- `#_` alone — a discard marker with nothing to discard — is *not* trivia, in any configuration -/
+example : ∀ cfg ∈ [Cfg.core, ⟨true, false⟩, ⟨false, true⟩, ⟨true, true⟩],
+    ¬ RejectDocTrivX.TopTriviaX cfg "#_".toUTF8.toList := by
+  intro cfg hc
+  apply RejectDocTrivX.not_topTriviaX_of_read
+  revert cfg
+  decide +kernel
+
+/-- the theorem at work: `#_ ^:a [1] ; c` with the Clojure flag and an end-of-input value supplied -/
+example : (read ⟨true, false⟩ { eofValue := true } "#_ ^:a [1] ; c".toUTF8.toList).out = .eofValue :=
+  ((end_of_input_iff_top_level_trivia_in_every_configuration ⟨true, false⟩ { eofValue := true } rfl _).2.1 rfl).2
+    (RejectDocTrivX.topTriviaX_of_read _ _ (by decide +kernel))
 
 end Edn.Properties.C13
